@@ -43,6 +43,7 @@ public:
   ccl::change::Hash announcedCore{ 0 };  // CoreHash at the last announcement (or at MarkPristine)
   uint64_t lastWriteSeq{ 0 };            // sequence number of the last successful WriteData (0 = none since ResetSeq)
   uint64_t writes{ 0 };                  // number of successful WriteData calls
+  std::vector<std::pair<uint64_t, ccl::change::Hash>> writeLog{};   // (sequence number, CoreHash after the write) of every WriteData since ResetSeq
 
 private:
   bool saved{ true };
@@ -84,7 +85,7 @@ public:
 
 public:
   // start of a transition: sequence numbers are only meaningful within one transition
-  void ResetSeq() { seq = 0; for (auto& s : sources) s.lastWriteSeq = 0; }
+  void ResetSeq() { seq = 0; for (auto& s : sources) { s.lastWriteSeq = 0; s.writeLog.clear(); } }
 
   [[nodiscard]] Source* Cast(ccl::src::Source* src) { return dynamic_cast<Source*>(src); }
   [[nodiscard]] const Source* Cast(const ccl::src::Source* src) const { return dynamic_cast<const Source*>(src); }
@@ -226,7 +227,7 @@ inline bool Source::WriteData(ccl::meta::UniqueCPPtr<ccl::src::DataStream> data)
   if (rsData == nullptr) return false;
   schema = *rsData;  // RSForm::operator= notifies the schema's observers -> saved = false
   ++writes;
-  if (mgr != nullptr) lastWriteSeq = ++mgr->seq;
+  if (mgr != nullptr) { lastWriteSeq = ++mgr->seq; writeLog.emplace_back(lastWriteSeq, schema.CoreHash()); }
   return true;
 }
 
